@@ -21,27 +21,29 @@ C06Fails(c) ==
                /\ ck.i = [j \in 1 .. n |-> NodeLabel(n, j - 1)]
                /\ NonInputSet(ck) = {gates[x] : x \in n .. (n + r - 1)}
                /\ InputSet(ck) = {NodeLabel(n, x) : x \in 0 .. (n - 1)}
+      \* evaluated only when the shape is right; the clauses below that look INTO the gates are evaluated only when
+      \* every gate is binary over existing nodes (the verdicts are total: an ill-formed result is reported, not a crash)
+      binOK == \A x \in n .. (n + r - 1) :
+                 LET g == ck.g[gates[x]] IN
+                 /\ Len(g.o) = 2 /\ g.o[1] # g.o[2]
+                 /\ g.o[1] \in Labels(ck) /\ g.o[2] \in Labels(ck)
+                 /\ nodeOf(g.o[1]) < x /\ nodeOf(g.o[2]) < x
   IN IF ~shape THEN {"exactly-the-requested-number-of-gates-and-inputs"}
   ELSE FailSet(<<
-    <<"gates-binary-over-two-distinct-earlier-nodes",
-        \A x \in n .. (n + r - 1) :
-           LET g == ck.g[gates[x]] IN
-           /\ Len(g.o) = 2 /\ g.o[1] # g.o[2]
-           /\ g.o[1] \in Labels(ck) /\ g.o[2] \in Labels(ck)
-           /\ nodeOf(g.o[1]) < x /\ nodeOf(g.o[2]) < x>>,
+    <<"gates-binary-over-two-distinct-earlier-nodes", binOK>>,
     <<"gate-type-outside-basis",
         \A x \in n .. (n + r - 1) : ck.g[gates[x]].t \in SeqSet(c.basis)>>,
     <<"output-count-and-outputs-at-gates",
-        Len(ck.o) = c.m /\ \A k \in DOMAIN ck.o : ck.o[k] \in NonInputSet(ck)>>,
+        Len(ck.o) = c.m /\ \A k \in DOMAIN ck.o : ck.o[k] \in Labels(ck) /\ ck.o[k] \in NonInputSet(ck)>>,
     <<"disagrees-with-the-model-on-a-defined-entry",
-        Len(ck.o) # c.m \/ ~WF1(ck) \/ ~WF5(ck) \/
+        Len(ck.o) # c.m \/ ~binOK \/ ~WF1(ck) \/ ~WF5(ck) \/ ~(SeqSet(ck.o) \subseteq Labels(ck)) \/
         LET tt == TT(ck) IN
         \A o \in 1 .. c.m : \A row \in AllRows(n) :
            c.mtt[o][row + 1] = 2 \/ ((c.mtt[o][row + 1] = 1) <=> (row \in tt[o]))>>,
     <<"normalisation-violated",
         ~c.norm \/ \A x \in n .. (n + r - 1) : SubSeq(CodeOfGate(ck.g[gates[x]]), 1, 1) = "0">>,
     <<"fixed-gate-constraint-violated",
-        \A j \in DOMAIN c.fix :
+        ~binOK \/ \A j \in DOMAIN c.fix :
            LET f == c.fix[j]
                g == ck.g[NodeLabel(n, f.g)]
                ops == {nodeOf(g.o[1]), nodeOf(g.o[2])}
@@ -49,7 +51,7 @@ C06Fails(c) ==
               /\ f.p2 >= 0 => f.p2 \in ops
               /\ f.t # "" => CodeOfGate(g) = TTCode(f.t)>>,
     <<"forbidden-wire-used",
-        \A j \in DOMAIN c.forbid :
+        ~binOK \/ \A j \in DOMAIN c.forbid :
            LET g == ck.g[NodeLabel(n, c.forbid[j].to)]
            IN NodeLabel(n, c.forbid[j].from) \notin {g.o[1], g.o[2]}>>
   >>)
